@@ -2,7 +2,7 @@
    Model/Effects.v: a program accepted by the static check `safe` leaves every object of the caller's heap
    untouched, for ALL initial heaps and ALL argument tuples (any aliasing between arguments included). *)
 From Coq Require Import List Arith ZArith Bool.
-From TLV Require Import Model.Effects Proofs.EffectsProofs Proofs.EffectsProofsSk Proofs.EffectsProofsGen.
+From TLV Require Import Model.Effects Proofs.EffectsProofs Proofs.EffectsProofsSk Proofs.EffectsProofsGen Proofs.EffectsProofsPaths.
 Import ListNotations.
 
 (* the frame theorem *)
@@ -261,6 +261,34 @@ Print Assumptions C15_tucker_normalize_method_frame.
 
 Example C15_cp_normalize_method_nonvacuous : footprint sk_cp_normalize_method [RObj 0 []] method_heap = [0].
 Proof. exact cp_normalize_method_nonvacuous. Qed.
+
+(* ------------------------------------------------------------------ programs with choices (the skeletons EXTRACTED from the source)
+   A pcmd denotes the list `paths p` of its resolutions (each data-dependent `if`, independently per loop iteration and
+   per inlined call).  `psafe_with` runs the abstract interpreter on all of them at once (shared prefixes); it is sound
+   w.r.t. `paths`, so every resolution of an accepted extracted skeleton is framed - also when interrupted. *)
+Theorem C15_psafe_paths : forall flags p, psafe_with flags p = true -> forall c, In c (paths p) -> safe_with flags c = true.
+Proof. exact psafe_paths. Qed.
+Print Assumptions C15_psafe_paths.
+
+Theorem C15_psafe_frame : forall p (args : list ref) (h0 : heap),
+  psafe_with (repeat false (length args)) p = true ->
+  forall c, In c (paths p) -> forall n o, o < length h0 ->
+  nth_error (snd (fst (run c n (env0 args, h0)))) o = nth_error h0 o.
+Proof. exact psafe_frame. Qed.
+Print Assumptions C15_psafe_frame.
+
+Theorem C15_psafe_frame_inplace : forall p (args : list (ref * bool)) (h0 : heap),
+  psafe_with (map snd args) p = true -> closed_heap h0 -> closed_args h0 (inplace_roots args) ->
+  forall c, In c (paths p) -> forall n o, o < length h0 -> ~ reach h0 (inplace_roots args) o ->
+  nth_error (snd (fst (run c n (env0 (map fst args), h0)))) o = nth_error h0 o.
+Proof. exact psafe_frame_inplace. Qed.
+Print Assumptions C15_psafe_frame_inplace.
+
+Example C15_psafe_demo :
+  psafe_with [false] (PSeq (PChoice (PPrim (Copy 1 0)) (PPrim (Alloc 1 2))) (PPrim (InplaceOp 1 2))) = true /\
+  psafe_with [false] (PSeq (PChoice (PPrim (Copy 1 0)) (PPrim (View 1 0 [0]))) (PPrim (InplaceOp 1 2))) = false /\
+  length (paths (PRepeat 2 (PChoice (PPrim Skip) (PPrim (Alloc 1 2))))) = 4.
+Proof. exact psafe_demo. Qed.
 
 (* non-vacuity of the in-place frame statement *)
 Example C15_hals_nnls_nonvacuous :
